@@ -381,7 +381,15 @@ def main():
         to = cfg.get("harness_timeout", {}).get(tier_, 900 if tier_ == "quick" else 3600)
         henv = goenv()
         henv["VERIF_REPO"] = REPO
-        rc_, out_, wall_ = sh(cmd, cwd=HARNESS, timeout=to, env=henv)
+        henv["VERIF_ROOT"] = ROOT
+        # The harness runs the library's real OS back end on inputs that include empty and relative paths, and it is run
+        # against changed trees: its working directory is a private, empty directory, never a directory of this development
+        # (a changed Rm("") once removed the working directory's contents).
+        hcwd = os.path.join(outdir, "cwd")
+        shutil.rmtree(hcwd, ignore_errors=True)
+        os.makedirs(hcwd, exist_ok=True)
+        rc_, out_, wall_ = sh(cmd, cwd=hcwd, timeout=to, env=henv)
+        shutil.rmtree(hcwd, ignore_errors=True)
         try:
             o = json.load(open(os.path.join(outdir, "obs.json")))
         except Exception:
